@@ -980,6 +980,15 @@ fn derive_dot_expression(
                                     types: NarrowingShape::Any,
                                 }));
                             }
+                            // A candidate can itself be a set of candidates
+                            // (a select inside a select or a list).
+                            Shape::Narrowed(_) | Shape::Import(_) => {
+                                let inner =
+                                    derive_dot_expression(pos, t, right_expr, symbol_table);
+                                if !matches!(inner, Shape::TypeErr(_, _)) {
+                                    results.push(inner);
+                                }
+                            }
                             _ => { /* not field-accessible, skip */ }
                         }
                     }
@@ -1023,6 +1032,13 @@ fn derive_dot_expression(
                                     pos: pi.pos.clone(),
                                     types: NarrowingShape::Any,
                                 }));
+                            }
+                            Shape::Narrowed(_) | Shape::Import(_) => {
+                                let inner =
+                                    derive_dot_expression(pos, t, right_expr, symbol_table);
+                                if !matches!(inner, Shape::TypeErr(_, _)) {
+                                    results.push(inner);
+                                }
                             }
                             _ => { /* not int-indexable, skip */ }
                         }
